@@ -85,6 +85,14 @@ def run(ctx):
         text = '(set-logic ALL)\n' + ''.join(f'(assert {x})\n' for x in [b_, 'pad0', 'pad1', 'keep', a_, 'pad2']) + '(check-sat)\n'
         jobs.append(dict(text=text, opts=['--strategy', ['ddmin', 'hierarchical', 'hybrid'][i % 3], '-j', str(1 + i % 2)] + extra + ['--disable-all', '--erase-node'],
                          cmd=[FAULTY, 'err1'], env={}, timeout=150, mode='err1', which=which))
+    # an INTEGER time limit (the CPU-time limit used to be the same number of seconds and fired together with it, F72): the golden
+    # run dies from SIGKILL, the output is ignored, and a spinning candidate must be rejected every time, not only when the
+    # wall clock happens to win
+    sp = [p_ for p_ in PAIRS if p_[0] == 's1'][0]
+    for i in range(6 if ctx.thorough else 3):
+        text = '(set-logic ALL)\n' + ''.join(f'(assert {x})\n' for x in [sp[1], 'pad0', 'keep', sp[0], 'pad1']) + '(check-sat)\n'
+        jobs.append(dict(text=text, opts=['--strategy', ['ddmin', 'hierarchical', 'hybrid'][i % 3], '-j', '1', '--timeout', '1', '--ignore-output', '--disable-all', '--erase-node'],
+                         cmd=[FAULTY, 'kill9'], env={}, timeout=200, mode='kill9', which=[sp]))
     # mirror case: the golden run itself hangs (explicit timeout); candidates that die quickly must be rejected
     for i in range(4 if ctx.thorough else 1):
         text = make_input(rng, [PAIRS[2]])
@@ -95,6 +103,27 @@ def run(ctx):
         text = make_input(rng, [])
         jobs.append(dict(text=text, opts=['--strategy', ['ddmin', 'hierarchical'][i % 2], '-j', str(1 + i), '--memout', '200', '--ignore-output', '--disable-all', '--erase-node'],
                          cmd=[FAULTY, 'alloc'], env={}, timeout=90, mode='alloc', which=[]))
+    # the CPU-time limit behind the time limit: read back from a child what limit_resources sets.  If the soft limit is not
+    # strictly above the time limit, a spinning command is stopped by the wall clock (exit None) or by the kernel depending on a
+    # race; if it equals the hard limit, the kernel stops it with SIGKILL, which cannot be told from a golden run that died
+    # from SIGKILL (F72)
+    import resource
+    import impl  # noqa: F401  (makes ddsmt importable)
+    from ddsmt import checker as _checker
+    if hasattr(resource, 'prlimit'):
+        for T in (1, 0.4, 2.5, 7):
+            child = subprocess.Popen(['sleep', '5'])
+            try:
+                _checker.limit_resources(T, child.pid)
+                soft, hard = resource.prlimit(child.pid, resource.RLIMIT_CPU)
+            finally:
+                child.kill()
+                child.wait()
+            ctx.case(['cpu limit', T], True)
+            ctx.count('CPU limits read back')
+            if not (soft > T and (hard == resource.RLIM_INFINITY or soft < hard)):
+                ctx.violation('impl-violation', input=f'time limit {T} s', observed=f'CPU-time limit of the command: soft {soft} s, hard {hard} s',
+                              expected='soft limit strictly above the time limit (the wall clock decides alone) and below the hard limit (SIGXCPU, not SIGKILL)')
     t0 = time.time()
     # the time limits (explicit or default) are the subject here: no limits added by the harness
     runs = e2e.run_many([dict({k: v for k, v in j.items() if k not in ('mode', 'which')}, safe_limits=False) for j in jobs], workers=6)
